@@ -14,22 +14,6 @@ use serde::{Deserialize, Serialize};
 // cases
 
 #[derive(Clone, Debug, Serialize, Deserialize, Hash)]
-pub enum Pivots {
-    /// explicit choices, then always 0 (what the DFS produces)
-    Explicit(Vec<usize>),
-    Script(PivotScript),
-}
-
-impl Pivots {
-    fn install(&self) {
-        match self {
-            Pivots::Explicit(p) => install_explicit(p),
-            Pivots::Script(s) => s.install(),
-        }
-    }
-}
-
-#[derive(Clone, Debug, Serialize, Deserialize, Hash)]
 pub struct PartCase {
     pub values: Vec<i64>,
     pub pivot: usize,
@@ -349,9 +333,6 @@ fn stride_strategy() -> impl Strategy<Value = isize> {
     prop_oneof![3 => Just(1isize), 1 => Just(2isize), 1 => Just(3isize), 1 => Just(-1isize), 1 => Just(-2isize), 1 => Just(-3isize)]
 }
 
-fn pivots_strategy() -> impl Strategy<Value = Pivots> {
-    pivot_script_strategy().prop_map(Pivots::Script)
-}
 
 fn part_strategy(max_len: usize) -> impl Strategy<Value = PartCase> {
     (values_strategy(max_len), any::<u16>(), stride_strategy(), 0usize..3, 0u8..20).prop_map(|(mut values, p, stride, offset, oor)| {
